@@ -4,7 +4,7 @@ Every generated plotfile is validated under all 16 option combinations x every l
 controls: corruptions strictly above the level limit must not change the verdict."""
 import os, random, contextlib, itertools
 import numpy as np
-from .. import common, gen, refparse, workload, pools, mutate, strict
+from .. import common, gen, refparse, workload, pools, mutate, strict, endurance
 
 ID = "C03"
 LEVEL = "exploration"
@@ -16,7 +16,7 @@ RULE = ("cases = generated well-formed plotfiles (C01 population incl. scattered
         "an option combination different from the default")
 ASSUMPTIONS = ["well-formed = what the generator writes (NaN-ignoring min/max rows; no all-NaN "
                "box component)", "pool shim M1 in-process with shuffled schedules"]
-REQUIRED_OBS = {"validations": 500, "path_previously_reported_bad": 4, "controls_above_limit": 5, "cli_validations": 100}
+REQUIRED_OBS = {"endurance_calls": 100, "validations": 500, "path_previously_reported_bad": 4, "controls_above_limit": 5, "cli_validations": 100}
 # (the stage:* counters - which validation stages actually ran - are reported in the evidence but not
 #  required: they hang on internal method names)
 TIMEOUT = {"quick": 300, "thorough": 1500}
@@ -42,7 +42,8 @@ def cases(tier, seed):
     if tier == "thorough":
         for a in ("example_plt_2d", "example_plt_3d", "plt1_Y", "plt2_F", "plt_eb_3d"):
             cs.append({"asset": a, "sel_seed": seed})
-    return cs
+    # M10: the same operation repeated in one process under a low open-file limit (vlib/endurance.py)
+    return list(cs) + [endurance.case("taste", tier, seed)]
 
 
 STAGES = ["taste_plotfile_structure", "taste_box_coordinates", "taste_binary_headers",
@@ -76,6 +77,8 @@ def strict_state():
 
 
 def run_case(case, work, rec):
+    if case.get("kind") == "endurance":
+        return endurance.run_case(case, work, rec)
     from amr_kitchen.taste import Taster
     rng = random.Random(case["sel_seed"])
     if "asset" in case:
